@@ -507,7 +507,19 @@ class World:
                 eff = None
             gw.tasks.transport.recv(topic, payload, qos)
             return eff
-        gw.tasks.transport.protocol.handle_line(line)
+        proto = gw.tasks.transport.protocol
+        # byte-level entry point: the line goes through the protocol's own framing and decoding (data_received), the
+        # way the reader thread / the event loop hands it over. Text that one '\n'-terminated UTF-8 frame cannot carry
+        # (an embedded line break, a lone surrogate) and a half-filled frame buffer fall back to handle_line.
+        if "\n" not in line and not getattr(proto, "buffer", None) and hasattr(proto, "data_received"):
+            try:
+                data = (line + "\n").encode("utf-8")
+            except UnicodeEncodeError:
+                data = None
+            if data is not None:
+                proto.data_received(data)
+                return line
+        proto.handle_line(line)
         return line
 
     def apply(self, ev):
